@@ -66,7 +66,7 @@ def answer(registry: Dict[str, Svc], questions: Sequence[Tuple[str, int]], known
     for qname, qtype in questions:
         q = qname.lower()
         if q == ENUM:
-            if qtype == T_PTR:
+            if qtype in (T_PTR, T_ANY):  # an ANY question is answered by every record of the name: here the pointers
                 for s in registry.values():
                     exp.enum_types.add(s.type.lower())
             continue
